@@ -39,6 +39,9 @@ func main() {
 
 	opt := newDefaultOptions()
 	opt.WorkDir = *workDir
+	// INCR/DECR and SET NX/XX are read-modify-write transactions: without conflict detection
+	// concurrent clients lose updates. A conflicting command replies with the conflict error.
+	opt.DetectConflicts = true
 	if opt.MaxBatchCount <= 0 {
 		opt.MaxBatchCount = int64(opt.WriteBatchMaxCount)
 		if opt.MaxBatchCount <= 0 {
